@@ -226,18 +226,21 @@ PROPS = {
         level_note='Bounds are stated in coverage.bounded.bound. Two known findings (names of a second rule on a shared pattern; int filter digit limit).',
     ),
     'C06': dict(
-        level='other', contracts=['body_read'], frames=[],
+        level='other', contracts=['body_read', 'C06'], frames=[],
         technique='bounded run-time contract check of compositionality: MultipartMarkup.parse fed with every division of small-scope byte strings '
                   'and of generated well-formed bodies (and their prefixes) must equal the one-piece parse; VC: _body_read feeds every part in order',
-        explanation='BOUNDED small-scope exhaustive splits; proved: _body_read hands each part to markup.parse in order (markup_fed_in_order).',
-        level_text='Bounded contract check (never counted as proved) plus the proved feeding obligation of _body_read.',
+        explanation='BOUNDED small-scope exhaustive splits; proved: _body_read hands each part to markup.parse in order; the three post-delimiter '
+                    'eaters are pinned down completely (result, exception, state) and the split-after-one-byte lemma holds over their specifications.',
+        level_text='Bounded contract check (never counted as proved) for the whole statement; proved: functional contracts + split lemma of the '
+                   'post-delimiter eaters and the feeding obligation of _body_read. match_tail / _eat_data / iter_markup / _eat_headers: bounded only.',
         level_note='Bounds are stated in coverage.bounded.bound.',
     ),
     'C07': dict(
-        level='other', contracts=[], frames=[],
+        level='other', contracts=['C07'], frames=[],
         technique='bounded run-time contract check: encode (independent RFC 7578 encoder) -> POST through Ombott.__call__ -> compare forms/files',
-        explanation='BOUNDED field lists, names, contents, boundaries, thresholds and framings; see coverage.bounded.',
-        level_text='Bounded contract check (never counted as proved).',
+        explanation='BOUNDED field lists, names, contents, boundaries, thresholds and framings; proved: BytesIOProxy read/seek/tell stay inside the '
+                    'window [_st,_end) of the buffered body (no byte of another part) and return exactly the window slice.',
+        level_text='Bounded contract check (never counted as proved) for the round trip; proved window arithmetic of BytesIOProxy.',
         level_note='Bounds are stated in coverage.bounded.bound.',
     ),
     'C12': dict(
